@@ -1,5 +1,7 @@
 package raft
 
+import "time"
+
 // vh_AE: the AppendEntries handler from an arbitrary node state with an arbitrary request (L1).
 // Request structure assumed: entry indices are contiguous from PrevLogIndex+1 (DESIGN.md §4 C06).
 // GA1 assumed: a leader of term t never receives a request of term t.
@@ -74,7 +76,16 @@ func vh_AE() {
 	vAssert(vAnd(post.durTerm == post.term, post.durVote == post.votedFor), "C02|C08.persisted(N3)")
 	vAssert(vImplies(vAnd(post.term == pre.term, pre.votedFor != ""), post.votedFor == pre.votedFor), "C02|C08.vote-stable(G2)")
 	vAssert(vImplies(resp.Success, req.Term >= pre.term), "C02|C06.no-accept-stale-term")
+	// GA3 fact the sender-side harness (vh_SAE) assumes about replies
+	vAssert(vImplies(resp.Success, resp.Term == req.Term), "C01|C05.success-reply-carries-request-term")
 	vAssert(vImplies(req.Term < pre.term, vAnd(post.term == pre.term, post.state == pre.state)), "C16.stale-term-no-effect")
+	// every request of the current (or a newer) term is leader contact - accepted or rejected: the voter's
+	// refusal window must cover everything the leader counts as a confirmation (C16.sticky / C17.vote)
+	if req.Term >= pre.term {
+		vAssert(time.Since(r.lastContact) < vTimeMargin, "C16|C17.contact-recorded-for-every-current-term-request")
+	} else {
+		vAssert(r.lastContact == pre.lastContact, "C16.stale-request-is-not-contact")
+	}
 	vAssert(vImplies(vAnd(pre.state == Leader, post.state != Leader), req.Term > pre.term), "C16.leader-steps-down-only-on-higher-term")
 
 	if pre.state == Leader && post.state != Leader {
@@ -102,6 +113,15 @@ func vh_AE() {
 	// ---- C06: the log only changes toward the sender's log
 	if !resp.Success {
 		vCover("rejected")
+		// C15.repair: a rejection of a current-term request carries a hint that makes the sender progress:
+		// strictly below its nextIndex (= prev+1), or right after this node's compacted prefix when that
+		// lies beyond prev; never 0 (MsgInv: index 0 has term 0)
+		if req.Term >= pre.term {
+			msgInv := vImplies(req.PrevLogIndex == 0, req.PrevLogTerm == 0)
+			vAssert(vImplies(msgInv, resp.Index >= 1), "C15.rejection-hint-is-a-log-index")
+			vAssert(vOr(resp.Index <= req.PrevLogIndex, vAnd(pre.lastIncludedIndex > req.PrevLogIndex, resp.Index == pre.lastIncludedIndex+1)), "C15.rejection-hint-makes-progress")
+			vAssert(resp.Index <= pre.lastIndex+1, "C15.rejection-hint-within-receivers-log")
+		}
 		vAssert(post.logLen == pre.logLen, "C06.reject-log-unchanged")
 		if post.logLen == pre.logLen {
 			for i := 0; i < pre.logLen; i++ {
